@@ -14,7 +14,7 @@ CONSTANT MaxLog        \* log texts per history (the log only grows, so it bound
 VARIABLE d
 svars == <<S, hist, nlog, done, I, d>>
 
-NoDraw == {"set_style", "restyle", "clone", "drop_one", "reset_eta", "reset_elapsed", "is_hidden", "downgrade", "upgrade"}
+NoDraw == {"set_style", "restyle", "copy_style", "clone", "drop_one", "reset_eta", "reset_elapsed", "is_hidden", "downgrade", "upgrade"}
 
 RECURSIVE WriteLines(_, _, _)
 WriteLines(t, ls, j) == IF j > Len(ls) THEN t ELSE WriteLines(Line(t, ls[j]), ls, j + 1)
